@@ -1260,18 +1260,44 @@ impl Value {
                                 // NOTE: this match exists only to optimize null defaults for large
                                 // backward-compatible schemas with many nullable fields
                                 match first {
-                                    Schema::Null => Value::Union(0, Box::new(Value::Null)),
-                                    _ => Value::Union(
-                                        0,
-                                        Box::new(
-                                            Value::try_from(value.clone())?.resolve_internal(
-                                                first,
+                                    Schema::Null if value.is_null() => {
+                                        Value::Union(0, Box::new(Value::Null))
+                                    }
+                                    _ => {
+                                        // The parser accepts a default that matches any branch of
+                                        // the union, so the branches are tried in order.
+                                        let default = Value::try_from(value.clone())?;
+                                        let mut resolved = None;
+                                        let mut first_error = None;
+                                        for (index, branch) in
+                                            union_schema.variants().iter().enumerate()
+                                        {
+                                            match default.clone().resolve_internal(
+                                                branch,
                                                 names,
                                                 enclosing_namespace,
                                                 field.default.as_ref(),
-                                            )?,
-                                        ),
-                                    ),
+                                            ) {
+                                                Ok(value) => {
+                                                    resolved = Some(Value::Union(
+                                                        index as u32,
+                                                        Box::new(value),
+                                                    ));
+                                                    break;
+                                                }
+                                                Err(error) => {
+                                                    first_error.get_or_insert(error);
+                                                }
+                                            }
+                                        }
+                                        match (resolved, first_error) {
+                                            (Some(value), _) => value,
+                                            (None, Some(error)) => return Err(error),
+                                            (None, None) => {
+                                                return Err(Details::EmptyUnion.into());
+                                            }
+                                        }
+                                    }
                                 }
                             }
                             _ => Value::try_from(value.clone())?,
